@@ -940,36 +940,63 @@ func ruleSyncMapLock(c *Ctx, rule string, pkgFilter func(string) bool) {
 		}
 		return nil, false
 	}
+	var lockedAtIn func(f *ssa.Function, base ssa.Value, at ssa.Instruction, names []string, depth int) bool
+	lockedAtIn = func(f *ssa.Function, base ssa.Value, at ssa.Instruction, names []string, depth int) bool {
+		ok := false
+		eachInstr(f, func(ins ssa.Instruction) {
+			if _, isDefer := ins.(*ssa.Defer); isDefer {
+				return
+			}
+			b, is := lockBase(ins, names...)
+			if !is || !(b == base || exprEq(b, base)) || !instrDominates(ins, at) {
+				return
+			}
+			released := false
+			eachInstr(f, func(u ssa.Instruction) {
+				if _, isDefer := u.(*ssa.Defer); isDefer {
+					return
+				}
+				ub, is := lockBase(u, "Unlock", "RUnlock")
+				if is && (ub == base || exprEq(ub, base)) && instrDominates(ins, u) && instrDominates(u, at) {
+					released = true
+				}
+			})
+			if !released {
+				ok = true
+			}
+		})
+		if ok {
+			return true
+		}
+		// "caller holds the lock": an unexported helper whose SyncMap is a parameter,
+		// every call site of which holds the lock of the argument
+		p, isParam := base.(*ssa.Parameter)
+		if !isParam || depth > 2 || f.Object() == nil || f.Object().Exported() || l.AddressTaken(f) {
+			return false
+		}
+		pi := -1
+		for k, q := range f.Params {
+			if q == p {
+				pi = k
+			}
+		}
+		cs := l.RealCallers(f)
+		if pi < 0 || len(cs) == 0 {
+			return false
+		}
+		for _, ci := range cs {
+			a := ci.Common().Args
+			if pi >= len(a) || ci.Parent() == nil || !lockedAtIn(ci.Parent(), strip(a[pi]), ci, names, depth+1) {
+				return false
+			}
+		}
+		return true
+	}
 	n := 0
 	for _, fn := range l.RepoFuncs(pkgFilter) {
 		fn := fn
 		lockNames := []string{"Lock", "RLock"}
-		lockedAt := func(base ssa.Value, at ssa.Instruction) bool {
-			ok := false
-			eachInstr(fn, func(ins ssa.Instruction) {
-				if _, isDefer := ins.(*ssa.Defer); isDefer {
-					return
-				}
-				b, is := lockBase(ins, lockNames...)
-				if !is || !(b == base || exprEq(b, base)) || !instrDominates(ins, at) {
-					return
-				}
-				released := false
-				eachInstr(fn, func(u ssa.Instruction) {
-					if _, isDefer := u.(*ssa.Defer); isDefer {
-						return
-					}
-					ub, is := lockBase(u, "Unlock", "RUnlock")
-					if is && (ub == base || exprEq(ub, base)) && instrDominates(ins, u) && instrDominates(u, at) {
-						released = true
-					}
-				})
-				if !released {
-					ok = true
-				}
-			})
-			return ok
-		}
+		lockedAt := func(base ssa.Value, at ssa.Instruction) bool { return lockedAtIn(fn, base, at, lockNames, 0) }
 		explicitUnlock := func(base ssa.Value) bool {
 			found := false
 			eachInstr(fn, func(u ssa.Instruction) {
@@ -1078,29 +1105,7 @@ func ruleSyncMapLock(c *Ctx, rule string, pkgFilter func(string) bool) {
 			if pt, ok := base.Type().Underlying().(*types.Pointer); !ok || !isNamed(pt.Elem(), modPath, "SyncMap") {
 				return
 			}
-			held := false
-			eachInstr(fn, func(lk ssa.Instruction) {
-				if _, isDefer := lk.(*ssa.Defer); isDefer {
-					return
-				}
-				b, is := lockBase(lk, "Lock")
-				if !is || !(b == base || exprEq(b, base)) || !instrDominates(lk, st) {
-					return
-				}
-				released := false
-				eachInstr(fn, func(u ssa.Instruction) {
-					if _, isDefer := u.(*ssa.Defer); isDefer {
-						return
-					}
-					ub, is := lockBase(u, "Unlock")
-					if is && (ub == base || exprEq(ub, base)) && instrDominates(lk, u) && instrDominates(u, st) {
-						released = true
-					}
-				})
-				if !released {
-					held = true
-				}
-			})
+			held := lockedAtIn(fn, base, st, []string{"Lock"}, 0)
 			n++
 			c.Check(rule, fmt.Sprintf("%s | store to the map field of %s", fnName(fn), describe(base)), l.Pos(st.Pos()), held, "under the SyncMap's write lock",
 				"the Value field of a shared SyncMap is assigned without the write lock held (under the read lock at most, which admits other readers doing the same): a data race on the field between VMs that share the SyncMap (a module constant, a global)")
